@@ -363,12 +363,16 @@ func forwardingCall(info *types.Info, fd *ast.FuncDecl) (*ast.CallExpr, []ast.Ex
 // run): a call through such a local is a static call.
 var localFnVals = map[*types.Var]*types.Func{}
 
+// localFnLits: locals defined exactly once by a function literal (closures called by name later in the function).
+var localFnLits = map[*types.Var]*ast.FuncLit{}
+
 func init() {
 	core.PreRun = append(core.PreRun, func(p *core.Program) {
 		fill := func(pk *packages.Package) {
 			info := pk.TypesInfo
 			count := map[*types.Var]int{}
 			target := map[*types.Var]*types.Func{}
+			lits := map[*types.Var]*ast.FuncLit{}
 			for _, file := range pk.Syntax {
 				ast.Inspect(file, func(n ast.Node) bool {
 					as, ok := n.(*ast.AssignStmt)
@@ -407,6 +411,8 @@ func init() {
 							if fn, ok := info.Uses[r].(*types.Func); ok {
 								target[v] = fn
 							}
+						case *ast.FuncLit:
+							lits[v] = r
 						}
 					}
 					return true
@@ -415,6 +421,9 @@ func init() {
 			for v, n := range count {
 				if n == 1 && target[v] != nil && v.Parent() != nil && v.Parent() != pk.Types.Scope() {
 					localFnVals[v] = target[v]
+				}
+				if n == 1 && lits[v] != nil && v.Parent() != nil && v.Parent() != pk.Types.Scope() {
+					localFnLits[v] = lits[v]
 				}
 			}
 		}
